@@ -70,7 +70,18 @@ func TestVHReplay(t *testing.T) {
 			panic(r)
 		}
 	}()
-	fn(vLoad().Params)
+	// schedule-dependent counterexamples: repeat until the assertion fails once
+	repeat := 1
+	if r := os.Getenv("VERIF_REPEAT"); r != "" {
+		fmt.Sscanf(r, "%d", &repeat)
+	}
+	for i := 0; i < repeat; i++ {
+		vChoicePos = 0
+		fn(vLoad().Params)
+		if len(vFailed) > 0 {
+			break
+		}
+	}
 	fmt.Println("VDONE")
 }
 `
@@ -235,6 +246,10 @@ func (r *Replayer) Run(v *Violation, file string, timeout time.Duration) (*Repla
 	cmd := exec.CommandContext(ctx, bin, "-test.run", "^TestVHReplay$", "-test.count=1", "-test.timeout", (timeout + 5*time.Second).String())
 	cmd.Dir = filepath.Join(r.repo, pkg)
 	cmd.Env = append(os.Environ(), "VERIF_REPLAY="+file, "VERIF_HARNESS="+v.Harness)
+	if len(v.Sched) > 0 && v.Kind == "assert" {
+		// found under a particular schedule: natively, stress it
+		cmd.Env = append(cmd.Env, "VERIF_REPEAT=20000")
+	}
 	out, _ := cmd.CombinedOutput()
 	res := &ReplayResult{Ran: true, Out: string(out)}
 	if ctx.Err() == context.DeadlineExceeded {
